@@ -149,6 +149,35 @@ Proof.
   intros H1 H2. unfold process_threads. apply map_ext. intros t. unfold thread_frames.
   rewrite (results_determined s1 t H1), (results_determined s2 t H2). reflexivity.
 Qed.
+
+(* the rendered "modules" array *)
+Lemma render_modules_independent s1 s2 mods :
+  leaf_injective c -> all_done c (run c s1) = true -> all_done c (run c s2) = true ->
+  render_modules c s1 mods = render_modules c s2 mods.
+Proof.
+  intros Hinj H1 H2. unfold render_modules. apply map_ext. intros k.
+  rewrite (stats_independent s1 s2 (leaf c k) Hinj H1 H2). reflexivity.
+Qed.
+
+Lemma render_modules_spec sched mods :
+  leaf_injective c -> all_done c (run c sched) = true ->
+  render_modules c sched mods = modules_spec c mods.
+Proof.
+  intros Hinj Hd. unfold render_modules, modules_spec. apply map_ext. intros k.
+  destruct (stats_determined sched (leaf c k) Hinj Hd) as [A B].
+  destruct (in_dec Nat.eq_dec k (concat (tasks c))) as [Hk|Hk].
+  - rewrite (A k Hk eq_refl). reflexivity.
+  - destruct (existsb (fun k' => Nat.eqb (leaf c k') (leaf c k)) (concat (tasks c))) eqn:E.
+    + destruct (find (fun k' => Nat.eqb (leaf c k') (leaf c k)) (concat (tasks c))) as [k'|] eqn:F.
+      * apply find_some in F. destruct F as [Hin Hl]. apply Nat.eqb_eq in Hl.
+        rewrite (A k' Hin Hl). reflexivity.
+      * apply existsb_exists in E. destruct E as [x [Hx Hl]].
+        pose proof (find_none _ _ F x Hx) as X. cbv beta in X. congruence.
+    + rewrite B; [reflexivity|]. intros k' Hin Hl.
+      assert (X : existsb (fun k'0 => Nat.eqb (leaf c k'0) (leaf c k)) (concat (tasks c)) = true).
+      { apply existsb_exists. exists k'. split; [exact Hin|]. apply Nat.eqb_eq. exact Hl. }
+      rewrite X in E. discriminate.
+Qed.
 End WithConfig.
 
 (* two modules sharing one leaf name: the snapshot depends on who finishes last *)
